@@ -737,6 +737,11 @@ class Interp:
             a = Int(0)
         if b is NULL:
             b = Int(0)
+        if op == '/' and isinstance(a, Term) and isinstance(b, Term) and a.k[0] == 'sizeof' and b.k[0] == 'sizeof':
+            import re
+            m = re.match(r'^(.*\S)\s*\[(\d+)\]$', a.k[1] or '')
+            if m and m.group(1).strip() == (b.k[1] or '').strip():
+                return Int(int(m.group(2)))
         if isinstance(a, Str) and isinstance(b, Int) and op in ('+', '-'):
             return Str(a.s, a.off + (b.v if op == '+' else -b.v))
         if isinstance(a, Ref) and isinstance(b, Int) and op in ('+', '-') and b.v == 0:
@@ -876,6 +881,15 @@ class Interp:
 
     def ev_CompoundLiteralExpr(self, e, st):
         return [(s, self.load_lv(s, lv, e)) for s, lv in self.lv(e, st)]
+
+    def ev_TypeTraitExpr(self, e, st):
+        v = e.get('value')
+        if isinstance(v, bool):
+            return [(st, Int(int(v)))]
+        return [(st, Term(('typetrait', e.get('id'))))]
+
+    def ev_OffsetOfExpr(self, e, st):
+        return [(st, Term(('offsetof', e.get('type', {}).get('qualType', '?'), e.get('id'))))]
 
     def ev_VAArgExpr(self, e, st):
         return [(st, Term(('va_arg', e.get('id'))))]
@@ -1025,6 +1039,8 @@ class Interp:
             td = u.typedefs.get(nm)
             if td is not None and td.get('_rec'):
                 rec = u.records.get(td['_rec'])
+        if rec is None and ('(unnamed' in qt or '(anonymous' in qt) and not qt.rstrip().endswith(']') and getattr(self, '_anon_rec', None):
+            rec = self._anon_rec
         if rec is None:
             return None
         return self.fields_of(rec)
@@ -1060,6 +1076,11 @@ class Interp:
             name = fv.name
         elif isinstance(fv, Term) or fv is NULL or isinstance(fv, Int):
             name = None
+            # library entry points exported as function-pointer variables (e.g. gnutls_free): call the modelled function
+            if isinstance(fv, Term) and fv.k[0] == 'mem' and fv.k[2] == '' and fv.k[1][0] in ('var', 'glob'):
+                vn = fv.k[1][3] if fv.k[1][0] == 'var' else fv.k[1][1]
+                if vn in self.model and vn not in self.u.globals:
+                    name = vn
         else:
             raise Unsupported('call of %r at %s' % (fv, loc_str(node)))
         self.rule.on_call(self, st, name, args, node)
@@ -1537,13 +1558,25 @@ class Interp:
 
     def st_DeclStmt(self, n, st):
         outs = [st]
+        recs = [c for c in n.get('inner', []) if c.get('kind') == 'RecordDecl']
+        if recs:
+            self._anon_rec = recs[-1]
         for d in n.get('inner', []):
             if d['kind'] != 'VarDecl':
                 continue
             nxt = []
             for s in outs:
                 if d.get('storageClass') == 'static':
-                    loc = ('glob', d.get('name'), self.u.name, self.frames[-1] if self.frames else '')
+                    loc = ('var', self.u.name, d['id'], d.get('name'))
+                    qt = d.get('type', {}).get('qualType', '')
+                    init = [c for c in d.get('inner', ()) if not c['kind'].endswith('Attr') and not c['kind'].endswith('Comment')]
+                    if 'const' in qt and 'init' in d and init and loc not in s.ginit:
+                        # a const table: its content is its initialiser on every activation
+                        r = self.ev(init[-1], s)
+                        if len(r) == 1:
+                            s = r[0][0]
+                            self.init_loc(s, loc, '', r[0][1], d)
+                            s.ginit.add(loc)
                     self.rule.on_decl(self, s, d, loc, None)
                     nxt.append(s)
                     continue
